@@ -211,6 +211,7 @@ type c45Case struct {
 	ChanCap int        `json:"chan_cap,omitempty"`
 
 	mons     []*c45Mon       // per real stage (source and flows), set by run
+	aliveAtVerdict []bool    // per real stage: actor alive when a stuck verdict was taken
 	batchIdx []int           // per stage group: real stage index of its Batch stage (0 = none)
 	batchOut []*c45BatchOut  // per stage group: what a Batch+hash group's function saw
 	sentinel *c45Err
@@ -697,7 +698,7 @@ func (c *c45Case) rootCause(o c45Outcome) (labels []string, facts []string) {
 		if o.Done && o.Err == nil && completed && in > outElems {
 			why = append(why, "completed while holding elements")
 		}
-		alive := !bm.stopped.Load() && (!c.mons[b+1].started.Load() || !c.mons[b+1].stopped.Load())
+		alive := len(c.aliveAtVerdict) > b+1 && c.aliveAtVerdict[b] && (!c.mons[b+1].started.Load() || c.aliveAtVerdict[b+1])
 		if !o.Done && alive && demand > outBatches && (in-outElems >= int64(s.N) || (completed && in > outElems)) {
 			why = append(why, "holds a full window (or the tail after upstream completion) although the downstream has outstanding demand")
 		}
@@ -723,13 +724,14 @@ type c45Outcome struct {
 	Late     int64 // deliveries observed after Done
 	Stuck    string
 	StuckMode string // spinning | quiescent
+	Leak      bool   // the actor system is left running (quiescent stuck stream)
 	Slow     string
 	Elapsed  time.Duration
 	RunErr   error
 	Consumer bool // the chan consumer saw the channel closed
 }
 
-var c45Watchdog = 30 * time.Second
+var c45Watchdog = 20 * time.Second
 
 // c45ProcessedCounts samples the processed-message counters of the stream's actors.
 func c45ProcessedCounts(h StreamHandle) ([]int, []bool) {
@@ -751,6 +753,40 @@ func c45CPU() time.Duration {
 	var ru syscall.Rusage
 	_ = syscall.Getrusage(syscall.RUSAGE_SELF, &ru)
 	return time.Duration(ru.Utime.Nano() + ru.Stime.Nano())
+}
+
+// c45BlockedInPut counts the goroutines that are inside the blocking put of a bounded
+// mailbox's ring buffer.
+func c45BlockedInPut() int {
+	buf := make([]byte, 8<<20)
+	n := runtime.Stack(buf, true)
+	return strings.Count(string(buf[:n]), "(*RingBuffer).put(")
+}
+
+// c45Settle waits (bounded) until no actor of the system processes messages any more, so
+// that stopping the system does not tear down stages that are still winding down (the
+// upstream part of a failed stream).
+func c45Settle(sys actor.ActorSystem) {
+	sample := func() (int, int) {
+		pids, err := sys.Actors(context.Background(), time.Second)
+		if err != nil {
+			return -1, -1
+		}
+		sum := 0
+		for _, p := range pids {
+			sum += p.ProcessedCount()
+		}
+		return len(pids), sum
+	}
+	n1, s1 := sample()
+	for i := 0; i < 100; i++ {
+		time.Sleep(30 * time.Millisecond)
+		n2, s2 := sample()
+		if n1 == n2 && s1 == s2 {
+			return
+		}
+		n1, s1 = n2, s2
+	}
 }
 
 var c45DumpOnce sync.Once
@@ -804,11 +840,18 @@ func c45Await(h StreamHandle, o *c45Outcome) {
 		if quiet >= 5 && r2[len(r2)-1] {
 			c45DumpStacks()
 			burn := float64(c45CPU()-cpu0) / float64(time.Since(t0))
+			putNote := ""
 			o.StuckMode = "quiescent"
-			if burn > 0.1 {
+			if burn > 0.5 {
 				o.StuckMode = "spinning" // nothing is processed and yet the process burns CPU
 			}
-			o.Stuck = fmt.Sprintf("no stage actor processed a message for 10 s after a %s watchdog while the sink actor is alive; processed=%v running=%v; process CPU over that window: %.2f cores", c45Watchdog, c2, r2, burn)
+			// dispatcher workers (or other senders) spinning in the blocking Enqueue of a
+			// full BoundedMailbox show up in the goroutine stacks
+			if n := c45BlockedInPut(); n > 0 {
+				o.StuckMode = "senders-blocked-on-full-mailbox"
+				putNote = fmt.Sprintf("; %d goroutine(s) inside RingBuffer.put with GOMAXPROCS=%d", n, runtime.GOMAXPROCS(0))
+			}
+			o.Stuck = fmt.Sprintf("no stage actor processed a message for 10 s after a %s watchdog while the sink actor is alive; processed=%v running=%v; process CPU over that window: %.2f cores%s", c45Watchdog, c2, r2, burn, putNote)
 			return
 		}
 	}
@@ -882,7 +925,18 @@ func (c *c45Case) run(sys actor.ActorSystem) c45Outcome {
 	c45Await(h, &o)
 	o.Elapsed = time.Since(t0)
 	if !o.Done {
-		h.Abort()
+		// remember which stage actors were still alive when the verdict was taken
+		c.aliveAtVerdict = make([]bool, len(c.mons))
+		for i, m := range c.mons {
+			c.aliveAtVerdict[i] = m.started.Load() && !m.stopped.Load()
+		}
+		// a quiescent stuck stream is left alone (tearing it down concurrently with a
+		// blocked sink only adds unrelated shutdown races); a spinning one must be stopped
+		if o.StuckMode == "quiescent" {
+			o.Leak = true
+		} else {
+			h.Abort()
+		}
 		return o
 	}
 	doneSeen.Store(true)
@@ -1103,7 +1157,13 @@ func (c *c45Case) judge(r *verifrt.Run, o c45Outcome, e c45Expect) (bad bool) {
 				flow = append(flow, fmt.Sprintf("%d:%s saw %d of %d", i, c.Stages[i].Kind, len(p.snapshot()), len(e.StageIn[i])))
 			}
 		}
-		r.Violation("stream-never-completes:"+o.StuckMode+":"+where("stages="+kinds+":sink="+c.Sink), detail(map[string]any{"stuck": o.Stuck, "progress_per_probed_stage": flow}))
+		var counters []string // per monitored real stage: what it received
+		for i, m := range c.mons {
+			if m != nil && m.started.Load() {
+				counters = append(counters, fmt.Sprintf("real stage %d (%T): elements in=%d (slices carrying %d), demand received=%d, completes in=%d, stopped=%v", i, m.inner, m.elemsIn.Load(), m.sliceElems.Load(), m.reqIn.Load(), m.completeIn.Load(), m.stopped.Load()))
+			}
+		}
+		r.Violation("stream-never-completes:"+o.StuckMode+":"+where("stages="+kinds+":sink="+c.Sink), detail(map[string]any{"stuck": o.Stuck, "progress_per_probed_stage": flow, "monitor_counters": counters}))
 		return true
 	}
 	if !o.Done {
@@ -1142,7 +1202,7 @@ func (c *c45Case) judge(r *verifrt.Run, o c45Outcome, e c45Expect) (bad bool) {
 	}
 	if o.Err != nil {
 		if resumeStage && (errors.Is(o.Err, error(c.sentinel)) || o.Err == error(c.sentinel)) {
-			r.Violation(fmt.Sprintf("resume-strategy-not-honoured:fusion=%d", c.Fusion), detail(map[string]any{"note": "TryMap(...).WithErrorStrategy(Resume) failed the stream instead of skipping the element"}))
+			r.Violation("resume-strategy-not-honoured:fusion="+[]string{"stateless", "none", "aggressive"}[c.Fusion], detail(map[string]any{"note": "TryMap(...).WithErrorStrategy(Resume) failed the stream instead of skipping the element"}))
 			return true
 		}
 		r.Violation("unexpected-stream-error:"+where("stages="+kinds), detail(nil))
@@ -1207,7 +1267,9 @@ func TestVerif_C45(t *testing.T) {
 			o := c.run(sys)
 			c.judge(r, o, c.expect())
 			r.Case(c.describe(), true)
-			c45StopSystem(sys)
+			if !o.Leak {
+				c45StopSystem(sys)
+			}
 			if !o.Done {
 				break
 			}
@@ -1246,7 +1308,10 @@ func TestVerif_C45(t *testing.T) {
 		}
 		wg.Wait()
 		tSys = time.Now()
-		c45StopSystem(sys)
+		if !outs[0].Leak {
+			c45Settle(sys)
+			c45StopSystem(sys)
+		}
 		r.Count("system_stop_ms", time.Since(tSys).Milliseconds())
 		if os.Getenv("C45_DEBUG") != "" {
 			for i, c := range cases {
